@@ -40,6 +40,15 @@ def _cmds(rng, k):
     if rng.random() < 0.08:
         # "override by subclassing": a user command derived from a built-in one that keeps the built-in's name
         out.append(["Sum", None, "builtin:Sum"])
+    r = rng.random()
+    if r < 0.06:
+        # one module defines the same command name twice (two classes)
+        first = out[0]
+        out.append([first[0] + "Alt", first[1] or first[0]])
+    elif r < 0.12:
+        # a command that gets its public name after its class statement
+        first = out[0]
+        out[0] = [first[0] + "Late", first[1] or first[0], "late"]
     return out
 
 
@@ -162,6 +171,8 @@ class {cls}(_Base{base}):
 def _class_src(cls, name, kind=None):
     if kind and kind.startswith("builtin:"):
         return SUBCLASS_TMPL.format(cls=cls, base=kind.split(":")[1])
+    if kind == "late":
+        return CLASS_TMPL.format(cls=cls, name_line="") + '\n%s.name = "%s"\n' % (cls, name)
     return CLASS_TMPL.format(cls=cls, name_line=('    name = "%s"\n' % name) if name else "")
 
 
@@ -294,7 +305,7 @@ def _static_commands(universe):
 def _run_history(sc, res, log, Program, MPilotError, mc, importlib):
     static = _static_commands(sc["universe"])
     packages = {s["name"]: [s["name"] + "." + x["name"] for x in s["subs"]] for s in sc["universe"] if s["package"]}
-    dynamic = []   # (module, command name) defined by DEFINE ops, in order
+    dynamic = []   # (module, command name, class name) defined by DEFINE ops, in order
     answers = {}   # request -> first answer (for the same-answer-at-every-point check)
     log.emit("scenario", prop="C19", nops=len(sc["ops"]))
 
@@ -307,12 +318,24 @@ def _run_history(sc, res, log, Program, MPilotError, mc, importlib):
                 for sub in packages.get(lib, []):
                     loaded.add(sub)
         pairs = []
+        twice = set()
+        classes = {}       # (module, command name) -> names of the classes that define it
         for mod in sorted(loaded):
             for name, cls in static[mod]:
+                classes.setdefault((mod, name), set()).add(cls)
                 pairs.append((mod, name))
-        for mod, name in dynamic:
-            if belongs(mod, libs) and (mod, name) not in pairs:
-                pairs.append((mod, name))
+        for mod, name, cls in dynamic:
+            if belongs(mod, libs):
+                # (a class name used before in that module is the same class defined again, not another one)
+                known = {c for (m, n), cs in classes.items() if m == mod for c in cs} | {c for n, c in static.get(mod, [])}
+                if cls in known and cls not in classes.get((mod, name), set()):
+                    continue
+                classes.setdefault((mod, name), set()).add(cls)
+                if (mod, name) not in pairs:
+                    pairs.append((mod, name))
+        for (mod, name), cs in classes.items():
+            if len(cs) > 1:
+                twice.add(name)
         # commands registered by earlier imports of modules inside a requested library
         for mod in imported:
             if belongs(mod, libs) and mod in static:
@@ -320,7 +343,7 @@ def _run_history(sc, res, log, Program, MPilotError, mc, importlib):
                     if (mod, name) not in pairs:
                         pairs.append((mod, name))
         names = {}
-        dups = set()
+        dups = set(twice)
         for mod, name in pairs:
             if name in names and names[name] != mod:
                 dups.add(name)
@@ -489,7 +512,7 @@ def _run_history(sc, res, log, Program, MPilotError, mc, importlib):
             mod = importlib.import_module(op[1])
             note_import(op[1])
             exec(_class_src(op[2], op[3] if op[3] != op[2] else None), mod.__dict__)
-            dynamic.append((op[1], op[3]))
+            dynamic.append((op[1], op[3], op[2]))
             res.probe("class defined later inside a library module")
         elif op[0] == "INSTALL":
             with open(os.path.join(os.environ["MPSIM_REG_ROOT"], op[1], "opt", "DEP_INSTALLED"), "w") as f:
